@@ -439,10 +439,10 @@ class Ctx:
 
     # ---- R5
     def arg_origin(self, clause, fn_or_pat, callee_pats, argi, require=(), forbid=(), desc='', key=None,
-                   through_calls=True, min_sites=1, all_sites=True):
+                   through_calls=True, min_sites=1, all_sites=True, require_any=()):
         """Every call to `callee` in fn: argument `argi` has all `require` origins (globs) and none of
         the `forbid` origins."""
-        _log_pats(callee_pats, require, forbid)
+        _log_pats(callee_pats, require, forbid, require_any)
         f = fn_or_pat if not isinstance(fn_or_pat, str) else self.try_fn(clause, fn_or_pat)
         if f is None:
             return None
@@ -462,6 +462,8 @@ class Ctx:
                 # `param:x` into `param:x.field`)
                 miss = [r for r in require if not any(glob_match(r, o) or (not r.endswith('*') and glob_match(r + '.*', o)) for o in og)]
                 bad = [o for o in og if any(glob_match(x, o) for x in forbid)]
+                if require_any and not any(_hasp(og, r) for r in require_any):
+                    miss = miss + ['any of %s' % list(require_any)]
                 if miss or bad:
                     ok_all = False
                     details.append('line %d: missing %s forbidden %s (origins: %s)' % (
